@@ -356,6 +356,62 @@ def replay_mc_expect(inputs, label, n, m):
     return False, "not reproduced"
 
 
+# ---------------------------------------------------------------- multi-annotator wrapper (ties of the aggregated votes)
+def sym_saw_twin(c, cmode, amode):
+    """SingleAnnotatorWrapper around UncertaintySampling on a label matrix whose annotators contradict each other (the
+    aggregated label is a tie broken at random): the result must not depend on the process-global generator"""
+    from harness import C07
+    P = __import__("skactiveml.pool.multiannotator", fromlist=["SingleAnnotatorWrapper"])
+    s = C07.gen(c, 2, 2, cmode, amode)
+    if not s.avail:
+        raise core.PathAbort("no available pair")
+    outs = []
+    for g in ("G1", "G2"):
+        facade.set_global_seed(z3.Int(g))
+        clf = models.StubClassifier(classes=[0, 1], n_classes=2, gen=7)
+        clf.classes_ = np.arange(2)
+        inner = pl.pool().UncertaintySampling(method="least_confident", random_state=s.seed)
+        w = P.SingleAnnotatorWrapper(strategy=inner, random_state=s.seed)
+        outs.append(w.query(s.X, s.y, candidates=s.cand, annotators=s.annot, batch_size=2, return_utilities=True, clf=clf, fit_clf=True))
+    def flat_idx(o):
+        return [int(v) for v in arrays.raw(arrays.asnd(o[0])).reshape(-1)]
+    same = flat_idx(outs[0]) == flat_idx(outs[1])
+    if same:
+        r1, r2 = arrays.raw(arrays.asnd(outs[0][1])), arrays.raw(arrays.asnd(outs[1][1]))
+        same = r1.shape == r2.shape and b_and(*[b_or(boolexpr(s_eq(a, b)), b_and(pl.is_nan_z(a), pl.is_nan_z(b)))
+                                                 for a, b in zip(r1.reshape(-1), r2.reshape(-1))])
+    c.prove(same, "independent_of_global_generator_and_twin_equal", info=dict(first=flat_idx(outs[0]), twin=flat_idx(outs[1])))
+    c.witness(True, "ran")
+
+
+def replay_saw_twin(inputs, label, cmode, amode):
+    from harness import C07
+    from skactiveml.classifier import ParzenWindowClassifier
+    P = __import__("skactiveml.pool.multiannotator", fromlist=["SingleAnnotatorWrapper"])
+    s = C07.real_gen(inputs, 2, 2, cmode, amode)
+    # the counterexample's own data, then a larger pool on which the two annotators contradict each other on every
+    # labeled sample (the tie of the aggregated label then decides which class the classifier learns)
+    rs = np.random.RandomState(0)
+    Xb = np.round(rs.randn(12, 1), 2)
+    yb = np.full((12, 2), np.nan)
+    yb[:6, 0], yb[:6, 1] = 0, 1
+    data = [(s.X, s.y, s.cand, s.annot), (Xb, yb, None, None)]
+    for X, y, cand, annot in data:
+        for seed in (int(inputs.get("seed", 0)), 0, 1, 2):
+            outs = []
+            for g in range(6):
+                np.random.seed(g)
+                inner = pl.pool().UncertaintySampling(method="least_confident", random_state=seed)
+                w = P.SingleAnnotatorWrapper(strategy=inner, random_state=seed)
+                o = w.query(X, y, candidates=cand, annotators=annot, batch_size=2, return_utilities=True,
+                            clf=ParzenWindowClassifier(classes=[0, 1], random_state=seed), fit_clf=True)
+                outs.append((np.asarray(o[0]).tolist(), np.round(np.asarray(o[1], dtype=float), 9).tolist()))
+            if any(repr(o) != repr(outs[0]) for o in outs):
+                return True, (f"SingleAnnotatorWrapper(UncertaintySampling, random_state={seed}).query on {len(X)} samples with "
+                              f"contradicting annotators depends on numpy's global generator: {[o[0] for o in outs[:3]]}")
+    return False, "not reproduced"
+
+
 # ---------------------------------------------------------------- classifier tie-breaking
 def sym_clf(c, n, nq):
     from skactiveml.classifier import ParzenWindowClassifier
@@ -427,6 +483,11 @@ HARNESSES = [Harness(f"pool_twin[{name}]", sym_pool, replay_pool, _cfg_pool(name
                                                           "skactiveml.utils._validation:check_random_state"], required_witnesses=("ran",)),
     Harness("monte_carlo_expectation", sym_mc_expect, replay_mc_expect, lambda tier: [dict(n=2, m=2)] + ([dict(n=3, m=3)] if tier != "quick" else []),
             ["skactiveml.pool.utils:_conditional_expect"], required_witnesses=("ran",)),
+    Harness("single_annotator_wrapper_twin", sym_saw_twin, replay_saw_twin,
+            lambda tier: [dict(cmode=cm, amode=am) for cm, am in ((("none", "none"), ("idx", "idx")) if tier == "quick" else
+                                                                  [(a, b) for a in ("none", "idx", "rows") for b in ("none", "idx", "matrix")])],
+            ["skactiveml.pool.multiannotator._wrapper:SingleAnnotatorWrapper.query", "skactiveml.utils._aggregation:majority_vote"],
+            required_witnesses=("ran",)),
     Harness("classifier_tie_breaking", sym_clf, replay_clf, lambda tier: [dict(n=2, nq=2)],
             ["skactiveml.base:SkactivemlClassifier.predict", "skactiveml.utils._selection:rand_argmin"], required_witnesses=("ran",)),
 ]
